@@ -187,7 +187,7 @@ def c17_challenge_issue_step(ctx, v):
                 return S.Agg("struct", "ReadyFuture", [ex_.copy_value(rnd)])
             if re.search(r"(?:^|::)crypto::sign$|^sign$", callee):
                 sig = ex_.fresh_value("[u8; 64]", "signature!%d" % next(ex_.fresh_counter))
-                st.events.append(("sign", callee, args, sig))
+                st.events.append(("sign", callee, [ex_.copy_value(ex_.deref_value(x)) if isinstance(x, S.Ref) else x for x in args], sig))
                 return sig
             return None
         ex.on_call = hook
